@@ -69,18 +69,28 @@ fn expected(ops1: &[Op], ops2: &[Op]) -> (Vec<String>, Vec<usize>) {
 }
 
 pub fn enumerate<G: AffineRepr + 'static>(max1: usize, max2: usize, seed: u64, mk_vals: impl Fn(u64) -> Box<dyn Vals<FOf<G>>>) -> (usize, Vec<(String, bool)>) {
-    enumerate_opt::<G>(max1, max2, seed, mk_vals, false)
+    enumerate_part::<G>(max1, max2, seed, mk_vals, false, 0, 1)
 }
 
 pub fn enumerate_opt<G: AffineRepr + 'static>(max1: usize, max2: usize, seed: u64, mk_vals: impl Fn(u64) -> Box<dyn Vals<FOf<G>>>, stop_at_first: bool) -> (usize, Vec<(String, bool)>) {
+    enumerate_part::<G>(max1, max2, seed, mk_vals, stop_at_first, 0, 1)
+}
+
+/// `part` of `nparts`: the (first-phase, second-phase) sequence pairs are dealt round-robin to the parts
+pub fn enumerate_part<G: AffineRepr + 'static>(max1: usize, max2: usize, seed: u64, mk_vals: impl Fn(u64) -> Box<dyn Vals<FOf<G>>>, stop_at_first: bool, part: usize, nparts: usize) -> (usize, Vec<(String, bool)>) {
     let mut out = vec![];
     let pc = pc_for::<G>("c16-enumeration", seed | 1);
     let bp = BulletproofGens::<G>::new(16, 1);
     let s1 = sequences(&ALPHA1, max1);
     let s2 = sequences(&ALPHA2, max2);
     let mut count = 0usize;
+    let mut pair_index = 0usize;
     for a in s1.iter() {
         for b in s2.iter() {
+            pair_index += 1;
+            if pair_index % nparts != part {
+                continue;
+            }
             count += 1;
             // the second-phase calls are made by one closure, and also split over two closures at every
             // position (the pairing state of single allocations carries over between closures)
@@ -91,8 +101,12 @@ pub fn enumerate_opt<G: AffineRepr + 'static>(max1: usize, max2: usize, seed: u6
             for variant in 0..=(n_split + n_reg) {
             let (split, reg) = if variant <= n_split { (variant, None) } else { (0, Some(variant - n_split - 1)) };
             let p2: Vec<&[Op]> = if b.is_empty() { vec![] } else if split == 0 { vec![b.as_slice()] } else { vec![&b[..split], &b[split..]] };
+            // witness modes: symbolic / random values; (first variant only) all zero; the literals 0, 1, -1, 2, ...
+            for wmode in 0..(if variant == 0 { 3 } else { 1 }) {
             let mut shape = Shape::new("seq", a, &p2);
             shape.register_at = reg;
+            shape.zero_witness = wmode == 1;
+            shape.literal_witness = wmode == 2;
             let (want_h, want_l) = expected(a, b);
             crate::arena::reset();
             let shr = new_shared::<G>(&shape, &Default::default(), mk_vals(seed));
@@ -128,16 +142,17 @@ pub fn enumerate_opt<G: AffineRepr + 'static>(max1: usize, max2: usize, seed: u6
                 }
             }
             if !ok {
-                out.push((format!("{} (closures split at {}, registered after {:?} first-phase calls): {}", name, split, reg, detail), false));
+                out.push((format!("{} (closures split at {}, registered after {:?} first-phase calls, witness mode {}): {}", name, split, reg, ["values", "all zero", "literals 0, 1, -1, 2, ..."][wmode], detail), false));
                 if stop_at_first {
                     return (count, out);
                 }
             }
             }
+            }
         }
     }
     // missing assignment: an error, not a wrong variable, and no counter moves
-    {
+    if part == 0 {
         let mut t = Transcript::new(b"c16");
         let mut prover = Prover::new(&pc, &mut t);
         let before = prover.multipliers_len();
